@@ -171,7 +171,20 @@ def c15(ctx, res):
                         "indexed wildcard steps (*[i]) are order dependent: only checked for no panic and error class"]
 
 
+def c19(ctx, res):
+    t = "quick" if ctx.quick else "thorough"
+    # writer half: lists of Maps -> file writers -> matching readers; gob; Copy
+    ctx.gen_replay(res, "filert", "MC_C19.tla", "MC_C19_%s.cfg" % t, procs=16)
+    # reader half: a file is a stream; whole and cut at every byte offset (profiles of MxjStream)
+    ctx.gen_replay(res, "file", "MC_Stream.tla", "MC_Stream_files.cfg", workers=4)
+    ctx.gen_replay(res, "stream", "MC_Stream.tla", "MC_Stream_cut_%s.cfg" % t, workers=8)
+    ctx.gen_replay(res, "stream", "MC_Stream.tla", "MC_Stream_jsoncut_quick.cfg", workers=8)
+    res.assumptions += ["temporary files are created with the os package (on tmpfs when /dev/shm is available) and removed immediately",
+                        "Maps are non-empty (the readers skip empty Maps by design); gob values are non-null scalars; the harness registers the container types with encoding/gob"]
+
+
 PROPS = {
+    "C19": c19,
     "C15": c15,
     "C17": c17,
     "C16": c16,
